@@ -242,6 +242,67 @@ let contexts : json list = [
 let emit_render oc tag (src : string) =
   List.iteri (fun i ctx -> emit oc (Ob [ "stream", JS "render"; "tag", JS tag; "src", JS (fast_hex src); "ctxid", JI i; "ctx", ctx ])) contexts
 
+(* ---- revisions: the same name compiled again with other content of the SAME byte length and the same
+   timestamps, loaded one after the other in one process (into one shared engine and into fresh ones);
+   every revision must render like its own source *)
+let rev_families : string list list = [
+  [ "Hello {{ a }}"; "Hello {{ b }}"; "Hallo {{ a }}"; "Hello {{ s }}" ];
+  [ "{{ name|upper }}"; "{{ name|lower }}"; "{{ name|title }}"; "{{ s|upper }}   " ];
+  [ "{% if flag %}yes{% else %}no!{% endif %}"; "{% if flag %}no!{% else %}yes{% endif %}"; "{% if a %}yes!!!{% else %}no!{% endif %}" ];
+  [ "{% for i in items %}{{ i }},{% endfor %}"; "{% for i in items %}{{ i }};{% endfor %}"; "{% for i in words %}{{ i }},{% endfor %}" ];
+  [ "{% set x = 1 %}{{ x + a }}"; "{% set x = 2 %}{{ x + a }}"; "{% set x = 1 %}{{ x + b }}"; "{% set x = 1 %}{{ x * a }}" ];
+  [ "v1"; "v2"; "v3"; "1v" ];
+  [ "{{ 'abc' }}"; "{{ 'abd' }}"; "{{ \"abc\" }}"; "{{ 12345 }}" ];
+  [ "{{ user.name }}"; "{{ user.zzzz }}"; "{{ user.age  }}" ];
+  [ "{% macro m(x) %}<{{ x }}>{% endmacro %}{{ m(a) }}"; "{% macro m(x) %}[{{ x }}]{% endmacro %}{{ m(a) }}"; "{% macro m(x) %}<{{ x }}>{% endmacro %}{{ m(b) }}" ];
+  [ "{% block c %}one{% endblock %}"; "{% block c %}two{% endblock %}"; "{% block d %}one{% endblock %}" ];
+  [ "\xff{{ a }}\xfe"; "\xfe{{ a }}\xff"; "\xff{{ b }}\xfe" ];
+]
+
+let emit_revisions r oc (n : int) (revs : string list) ctx =
+  let len = String.length (List.hd revs) in
+  List.iter (fun s -> if String.length s <> len then failwith "c16: revisions of unequal length") revs;
+  emit oc (Ob [ "stream", JS "revisions"; "name", JS (Printf.sprintf "rev_%d.twig" n);
+                "lm", JS (Int64.to_string (Int64.add 1700000000L (Int64.of_int n))); "ct", JS "1700000001";
+                "revs", JL (List.map (fun s -> JS (fast_hex s)) revs);
+                "shared", JL (List.map (fun _ -> JB (rint r 3 <> 0)) revs);
+                "ctx", ctx ])
+
+let rec shuffle r = function
+  | [] -> []
+  | l -> let k = rint r (List.length l) in
+    List.nth l k :: shuffle r (List.filteri (fun i _ -> i <> k) l)
+
+let revisions_stream r oc ~(count : int) =
+  let n = ref 0 in
+  let ctxs = Array.of_list contexts in
+  (* every family in two orders with every context *)
+  List.iter (fun fam ->
+      Array.iter (fun ctx ->
+          incr n; emit_revisions r oc !n fam ctx;
+          incr n; emit_revisions r oc !n (List.rev fam) ctx) ctxs) rev_families;
+  let tarr = Array.of_list templates in
+  for _ = 1 to count do
+    incr n;
+    let ctx = pick r ctxs in
+    match rint r 3 with
+    | 0 ->
+      (* any template with a trailing revision marker of fixed width *)
+      let t = pick r tarr in
+      let k = rrange r 2 4 in
+      emit_revisions r oc !n (List.init k (fun _ -> t ^ Printf.sprintf " rev%03d" (rint r 1000))) ctx
+    | 1 ->
+      (* a shuffled family, possibly with a revision repeated (a revert to earlier content) *)
+      let fam = shuffle r (pickl r rev_families) in
+      let fam = if rbool r then fam @ [ List.hd fam ] else fam in
+      emit_revisions r oc !n fam ctx
+    | _ ->
+      (* one byte of literal text differs *)
+      let t = pick r tarr in
+      let k = rrange r 2 3 in
+      emit_revisions r oc !n (List.init k (fun i -> Printf.sprintf "%c|" (Char.chr (Char.code 'A' + rint r 26)) ^ t)) ctx
+  done
+
 let run ~seed ~tier oc =
   let r = mk_rng seed in
   let thorough = (tier = "thorough") in
@@ -288,4 +349,6 @@ let run ~seed ~tier oc =
     let k = rrange r 2 5 in
     let glue () = pick r [| ""; " "; "\n"; "<p>"; "\xc3\xa9"; "\xff"; "}"; "{"; "%" |] in
     emit_render oc "composed" (String.concat "" (List.init k (fun _ -> pick r tarr ^ glue ())))
-  done
+  done;
+  (* 4. revisions of one name *)
+  revisions_stream r oc ~count:(if thorough then 1500 else 80)
